@@ -7,6 +7,7 @@ import (
 	"fmt"
 	"io"
 	"log/slog"
+	"math"
 	"net/http"
 	"path"
 	"strconv"
@@ -575,7 +576,7 @@ func (c *cmafIngester) sendMediaSegments(ctx context.Context, nextSegNr, nowMS i
 	if c.cfg.SegTimelineFlag {
 		var segPart string
 		var refSegEntries segEntries
-		atoMS := int(c.cfg.getAvailabilityTimeOffsetS() * 1000)
+		atoMS := int(math.Round(c.cfg.getAvailabilityTimeOffsetS() * 1000))
 		for idx, rd := range c.repsData {
 			var se segEntries
 			_, inAsset := c.asset.Reps[rd.repID]
